@@ -54,7 +54,7 @@ PROPS = {
             "Knot types (Rust-derived recursive types) do not cross the protocol; they are covered through TypeContainer environments in C01/C12",
             "service_compatible is exercised on sources printed by candid::pretty::candid::compile; its parser/checker are the subject of C12-C14",
         ],
-        "partial": ["transitivity, which the property claims, is FALSE for the relation of the specification at a record field of type null (theorem subtyping_is_not_transitive_at_a_null_field; known finding KF-C05-transitivity-null-field, replayed on the implementation by sub.trans); away from that shape it IS a theorem for first-order types (subtyping_is_transitive_away_from_null_fields) and checked on all triples of the small types for the rest. That a successful equal() implies subtyping both ways is a theorem for first-order types over environments with distinct field ids (equal_check_is_sound_after_history: the algorithm is sound for TyEq, the greatest fixed point of the congruence rules; equal_types_are_subtypes_both_ways; equal_check_implies_subtyping_both_ways) and an oracle on the implementation (op sub.equal) for reference types. Completeness (every subtyping of the specification is accepted, given enough depth budget) and the upgrade check service_compatible / merge_type are established by correspondence with the executable greatest-fixed-point oracle only; theorems now cover soundness of the algorithm for all environments whose names resolve: accepted from an empty memo, accepted after any history of successful checks, and for whole sequences sharing one memo"],
+        "partial": ["transitivity, which the property claims, is FALSE for the relation of the specification at a record field of type null (theorem subtyping_is_not_transitive_at_a_null_field; known finding KF-C05-transitivity-null-field, replayed on the implementation by sub.trans); away from that shape it IS a theorem for first-order types (subtyping_is_transitive_away_from_null_fields) and checked on all triples of the small types for the rest. That a successful equal() implies subtyping both ways is a theorem, reference types included, over environments where every name resolves and field ids / method names are distinct (TyEq, the greatest fixed point of the congruence rules, is an equivalence; the mirror of equal_impl is sound for it after any history and never rejects an equal pair; equal_types_are_subtypes_both_ways; equal_check_implies_subtyping_both_ways); class types are excluded. Completeness (every subtyping of the specification is accepted, given enough depth budget) and the upgrade check service_compatible / merge_type are established by correspondence with the executable greatest-fixed-point oracle only; theorems now cover soundness of the algorithm for all environments whose names resolve: accepted from an empty memo, accepted after any history of successful checks, and for whole sequences sharing one memo"],
     },
     "C02": {
         "profiles": ["debug"],
